@@ -216,6 +216,18 @@ func checkUnconditionalLoopEffect(p *Prog, r *Report, key string, fn *ssa.Functi
 				}
 			}
 		}
+		// … and the loop is only left by exhaustion or by failing: a `break`, or a return of anything but false / an error, from
+		// inside the body ends the walk before the remaining elements have been looked at
+		if at := earlyLoopExit(header); at != nil {
+			site := p.Pos(at.Pos())
+			for _, in := range at.Block().Instrs {
+				if in.Pos().IsValid() {
+					site = p.Pos(in.Pos())
+				}
+			}
+			r.Fail(key, rule, site, "the loop can be left from inside its body without failing (a break, or a return of a value other than false / an error): the elements after that point are never processed")
+			return
+		}
 	}
 	r.OK(key, rule, p.Pos(effects[0].Pos()), "effect executes on every iteration")
 }
@@ -301,4 +313,63 @@ func checkLookupBody(p *Prog, r *Report, clause string) {
 		}
 		r.Floor("positive-returns-of-"+name, nPos, 1)
 	}
+}
+
+// earlyLoopExit: an instruction through which the natural loop of header is left from a block other than the header, towards
+// code that neither panics nor returns false / a non-nil error. nil when there is none.
+func earlyLoopExit(header *ssa.BasicBlock) ssa.Instruction {
+	fn := header.Parent()
+	// the loop: blocks dominated by the header from which the header can be reached again
+	inLoop := map[*ssa.BasicBlock]bool{header: true}
+	var work []*ssa.BasicBlock
+	for _, pr := range header.Preds {
+		if header.Dominates(pr) && !inLoop[pr] {
+			inLoop[pr] = true
+			work = append(work, pr)
+		}
+	}
+	for len(work) > 0 {
+		b := work[0]
+		work = work[1:]
+		for _, pr := range b.Preds {
+			if !inLoop[pr] && header.Dominates(pr) {
+				inLoop[pr] = true
+				work = append(work, pr)
+			}
+		}
+	}
+	failing := func(b *ssa.BasicBlock) bool {
+		if len(b.Instrs) == 0 {
+			return false
+		}
+		switch x := b.Instrs[len(b.Instrs)-1].(type) {
+		case *ssa.Panic:
+			return true
+		case *ssa.Return:
+			if len(x.Results) == 0 {
+				return false
+			}
+			last := unspill(x.Results[len(x.Results)-1])
+			if isErrorType(last.Type()) {
+				return !isNilConst(last)
+			}
+			if c, ok := last.(*ssa.Const); ok && c.Value != nil && c.Value.String() == "false" {
+				return true
+			}
+			return false
+		}
+		return false
+	}
+	for _, b := range fn.Blocks {
+		if b == header || !inLoop[b] {
+			continue
+		}
+		for _, s := range b.Succs {
+			if inLoop[s] || failing(s) {
+				continue
+			}
+			return b.Instrs[len(b.Instrs)-1]
+		}
+	}
+	return nil
 }
